@@ -253,4 +253,122 @@ theorem restoreAsIs_counterexample :
       (.bytes (some (.dict [(.str "HTML5", .dict [(.str "x", .int 5), (.str "a", .dict [(.str "ref", .str "1")])])]))) []
     = .ok [] := by rfl
 
+/-! ### the same set: nothing is invented -/
+
+/-- **a save invents nothing**: every label in the section written for `r` is a label of this run or was an entry of
+    that section in the previous file (so labels of other documents processed in the same process, of other
+    renderers, or of anything else can never appear) -/
+theorem persist_invents_nothing (c : Codec β) (hc : c.Lawful) (r : String) (src : Src) (f : File β) :
+    ∃ b d sec, persist c r src f = .ok (.bytes b) ∧ c.dec b = some (.dict d) ∧ aget (.str r) d = some (.dict sec) ∧
+      ∀ k ∈ keys sec, k ∈ keys (toDict (oldData c r f)) ∨ ∃ kn ∈ src, k = Key.str kn.1 :=
+  ⟨_, _, _, persist_eq c r src f, hc _, newDict_self c r src f, fun k hk => mem_keys_persistLoop _ _ k hk⟩
+
+/-- **save then restore invents nothing**: the labels a later run sees are those it already had, those of the saving
+    run, and the entries the section held before — for every previous file -/
+theorem roundtrip_invents_nothing (c : Codec β) (hc : c.Lawful) (r : String) (src : Src) (f : File β) (L : Labels) :
+    ∃ f' L', persist c r src f = .ok f' ∧ restore c r f' L = .ok L' ∧
+      ∀ k ∈ keys L', k ∈ keys L ∨ k ∈ keys (toDict (oldData c r f)) ∨ ∃ kn ∈ src, k = Key.str kn.1 := by
+  obtain ⟨f', hp, hr⟩ := restore_persist c hc r src f L
+  refine ⟨f', _, hp, hr, ?_⟩
+  intro k hk
+  obtain ⟨n, hn⟩ := Option.isSome_iff_exists.1 ((aget_isSome_iff k _).2 hk)
+  rcases restoreLoop_origin _ _ _ _ hn with h | ⟨v, hv, _⟩
+  · exact Or.inl ((aget_isSome_iff k L).1 (by simp [h]))
+  · exact Or.inr (mem_keys_persistLoop _ _ k (List.mem_map.2 ⟨(k, v), hv, rfl⟩))
+
+/-! ### the second reader: the xr package (`\externaldocument`) -/
+
+/-- xr never fails (it is total by construction: `xrLoad` returns the labels) and a file that is missing, undecodable
+    or not a dictionary leaves the labels exactly as they were -/
+theorem xr_unreadable_is_noop (c : Codec β) (pfx : String) (url : Option String) (f : File β) (L : XLabels)
+    (h : f = .missing ∨ ∃ b, f = .bytes b ∧ ∀ kvs, c.dec b ≠ some (.dict kvs)) : xrLoad c pfx url f L = L := by
+  rcases h with rfl | ⟨b, rfl, hb⟩
+  · rfl
+  · show (match c.dec b with
+      | some (.dict kvs) => xrBlocks pfx url (toDict kvs) L
+      | _ => L) = L
+    split
+    · next kvs hd => exact absurd hd (hb kvs)
+    · rfl
+
+/-- **round trip through xr, per renderer, whatever was in the file before** (the variant `xrLoadR` that reads the
+    section of the renderer in use): every label of the run is found under `prefix + label` with exactly the saved record -/
+theorem xrR_roundtrip (c : Codec β) (hc : c.Lawful) (r pfx : String) (src : Src) (f : File β) (L : XLabels)
+    (hsrc : (keys src).Nodup) :
+    ∃ f', persist c r src f = .ok f' ∧ ∀ k n, (k, n) ∈ src →
+      aget (.str (pfx ++ k)) (xrLoadR c r pfx none f' L) = some (.dict (macroPersist n)) := by
+  refine ⟨_, persist_eq c r src f, ?_⟩
+  intro k n hmem
+  rw [xrLoadR_persist c hc]
+  exact xrBlock_get _ _ _ _ (persistLoop_nodup _ _ (toDict_nodup _)) k _ _
+    (persistLoop_get _ _ hsrc k n hmem) (xrEntry_saved tables_ok.1 pfx k n)
+
+/-- …and that reader invents nothing -/
+theorem xrR_invents_nothing (c : Codec β) (hc : c.Lawful) (r pfx : String) (url : Option String) (src : Src)
+    (f : File β) (L : XLabels) :
+    ∃ f', persist c r src f = .ok f' ∧ ∀ k ∈ keys (xrLoadR c r pfx url f' L),
+      k ∈ keys L ∨ ∃ l, k = .str (pfx ++ l) ∧
+        (Key.str l ∈ keys (toDict (oldData c r f)) ∨ ∃ kn ∈ src, l = kn.1) := by
+  refine ⟨_, persist_eq c r src f, ?_⟩
+  intro k hk
+  rw [xrLoadR_persist c hc] at hk
+  rcases xrBlock_origin _ _ _ _ _ hk with h | ⟨l, hl, e⟩
+  · exact Or.inl h
+  · refine Or.inr ⟨l, e, ?_⟩
+    rcases mem_keys_persistLoop _ _ _ hl with h | ⟨kn, hkn, e'⟩
+    · exact Or.inl h
+    · exact Or.inr ⟨kn, hkn, Key.str.inj e'⟩
+
+/-- The full statement for the code as it is (`xrLoad` walks the sections of *all* renderers): FALSE, see
+    `xr_mixes_renderers_counterexample` (known finding `xr-mixes-renderers`); proved for `xrLoadR` above and, for the
+    code as it is, when the file `persist` found held no readable dictionary (`xr_roundtrip_partial`). -/
+def xr_roundtrip_statement : Prop :=
+  ∀ (c : Codec (Option Val)) (_ : c.Lawful) (r pfx : String) (src : Src) (f : File (Option Val)) (L : XLabels),
+    (keys src).Nodup → ∃ f', persist c r src f = .ok f' ∧ ∀ k n, (k, n) ∈ src →
+      aget (.str (pfx ++ k)) (xrLoad c pfx none f' L) = some (.dict (macroPersist n))
+
+/-- the code as it is: round trip through xr when the previous file was missing, undecodable or not a dictionary
+    (what is missing for the full statement: files that hold a section of another renderer with the same label) -/
+theorem xr_roundtrip_partial (c : Codec β) (hc : c.Lawful) (r pfx : String) (src : Src) (f : File β) (L : XLabels)
+    (hsrc : (keys src).Nodup)
+    (hf : f = .missing ∨ ∃ b, f = .bytes b ∧ ∀ kvs, c.dec b ≠ some (.dict kvs)) :
+    ∃ f', persist c r src f = .ok f' ∧ ∀ k n, (k, n) ∈ src →
+      aget (.str (pfx ++ k)) (xrLoad c pfx none f' L) = some (.dict (macroPersist n)) := by
+  obtain ⟨f', hp, hR⟩ := xrR_roundtrip c hc r pfx src f L hsrc
+  refine ⟨f', hp, ?_⟩
+  have hfresh : loadOld c r f = freshDict r := by
+    rcases hf with rfl | ⟨b, rfl, hb⟩
+    · rfl
+    · cases hd : c.dec b with
+      | none => simp [loadOld, hd]
+      | some v =>
+        cases v with
+        | dict kvs => exact absurd hd (hb kvs)
+        | _ => simp [loadOld, hd]
+  have hf' : f' = .bytes (c.enc (.dict (newDict c r src f))) := by
+    have := persist_eq c r src f; rw [hp] at this; cases this; rfl
+  have hnew : newDict c r src f = [(.str r, .dict (persistLoop src (toDict (oldData c r f))))] := by
+    unfold newDict; rw [hfresh]; simp [freshDict, aset]
+  have hsame : xrLoad c pfx none f' L = xrLoadR c r pfx none f' L := by
+    rw [hf']
+    simp only [xrLoad, xrLoadR, hc (.dict _), toDict_eq_self (newDict_nodup c r src f)]
+    rw [hnew]; simp [xrBlocks, aget]
+  intro k n hmem
+  rw [hsame]; exact hR k n hmem
+
+/-- the code as it is reads a label saved under two renderers from the later section: after saving `a ↦ 1` under
+    HTML5 into a file that holds `a ↦ 9` under XHTML, xr yields `9` (kernel-checked witness of the known finding) -/
+theorem xr_mixes_renderers_counterexample :
+    (match persist (β := Option Val) ⟨some, id⟩ "HTML5" [("a", [("ref", .node "1")])]
+        (.bytes (some (.dict [(.str "HTML5", .dict []), (.str "XHTML", .dict [(.str "a", .dict [(.str "ref", .str "9")])])]))) with
+     | .ok f' => xrLoad ⟨some, id⟩ "" none f' []
+     | .error _ => []) = [(.str "a", .dict [(.str "ref", .str "9")])] := by rfl
+
+/-- non-vacuity of `xrR_roundtrip` on the same input: the per-renderer reader yields the saved record -/
+example :
+    (match persist (β := Option Val) ⟨some, id⟩ "HTML5" [("a", [("ref", .node "1")])]
+        (.bytes (some (.dict [(.str "HTML5", .dict []), (.str "XHTML", .dict [(.str "a", .dict [(.str "ref", .str "9")])])]))) with
+     | .ok f' => xrLoadR ⟨some, id⟩ "HTML5" "P-" none f' []
+     | .error _ => []) = [(.str "P-a", .dict [(.str "ref", .str "1")])] := by rfl
+
 end PlasVerif.Properties.C20
